@@ -23,7 +23,7 @@ REQUIRED_REACH = ["data_processing.py:from_nested_to_3d_numpy", "data_processing
                   "data_processing.py:from_2d_array_to_nested", "data_processing.py:is_nested_dataframe", "panel.py:check_X"]
 REQUIRED_MONITORS = ["layout", "path.values", "path.names", "predicate", "check_X"]
 NOT_COVERED = ["unequal-length panels (outside the statement)", "paths longer than 3 conversions",
-               "instance labels that are not in sorted order (the long table is keyed by identifiers; pivoting orders them like variables)"]
+               "instance labels that are not in sorted order on paths through the long table (it is keyed by identifiers; pivoting orders them like variables)"]
 ASSUMPTIONS = ["decoders in c15._decode follow each representation's documented layout"]
 JOBS = {"quick": 4, "thorough": 16}
 EXHAUSTIVE = {"quick": True, "thorough": False}
@@ -39,7 +39,7 @@ def cases(tier, seed):
     for _ in range(nrand):
         yield {"ni": int(rng.integers(1, 9 if tier == "quick" else 31)), "nc": int(rng.integers(1, 5 if tier == "quick" else 7)),
                "nt": int(rng.integers(2, 14 if tier == "quick" else 51)), "names": ["default", "str", "int"][int(rng.integers(0, 3))],
-               "cells": "SA"[int(rng.integers(0, 2))], "labels": ["default", "default", "ints", "strs"][int(rng.integers(0, 4))],
+               "cells": "SA"[int(rng.integers(0, 2))], "labels": ["default", "default", "ints", "strs", "unsorted-ints", "unsorted-strs"][int(rng.integers(0, 6))],
                "values": ["id", "random", "huge"][int(rng.integers(0, 3))], "vseed": int(rng.integers(0, 2 ** 31))}
 
 
@@ -63,6 +63,10 @@ def _make(case):
     df = pd.DataFrame({nm[j]: [cont(arr[i, j].copy()) for i in range(ni)] for j in range(nc)})
     if case["labels"] == "ints":
         df.index = [100 + 7 * i for i in range(ni)]
+    elif case["labels"] == "unsorted-ints":
+        df.index = [3 + 5 * ((ni - i) % ni) + (i % 2) * 100 for i in range(ni)]          # distinct, neither ascending nor descending
+    elif case["labels"] == "unsorted-strs":
+        df.index = ["id_%d" % (ni - i) for i in range(ni)]                              # descending / lexicographically disordered
     elif case["labels"] == "strs":
         df.index = ["case_%02d" % i for i in range(ni)]
     return arr, df, nm
@@ -156,6 +160,8 @@ def run_case(case, ctx):
             for (a, b), f in conv.items():
                 if a != path[-1]:
                     continue
+                if case["labels"].startswith("unsorted") and "long" in (a, b):
+                    continue        # the long table is keyed by identifiers and orders instances like it orders variables
                 p2 = path + [b]
                 # names handed to conversions that take them (3d array -> named representation, long -> nested)
                 if cur is not None:
